@@ -55,7 +55,14 @@ def gen_cases(tier, seed):
             i += 1
             yield {'family': fmt, 'sizes': [3, 2], 'format': fmt, 'pretty': True, 'idx': i, 'seed': seed, 'tier': tier,
                    'paths': paths}
-    # an output path that is a directory created for an earlier resource: the dump may refuse, it must not "succeed"
+    # three resources whose paths collide, one of them natively carrying the name de-duplication would generate next:
+    # every listed file is its own resource's file (size and hash recorded for it)
+    for fmt in ('csv', 'json'):
+        for paths in ([('a', 'data_2.csv'), ('b', 'data.csv'), ('c', 'data.csv')],
+                      [('p', 'data/part.csv'), ('q', 'data/part.csv'), ('r', 'data/part.csv')]):
+            i += 1
+            yield {'family': fmt, 'sizes': [3, 2, 4], 'format': fmt, 'pretty': True, 'idx': i, 'seed': seed, 'tier': tier,
+                   'paths': paths}
     for fmt in ('csv',):
         i += 1
         yield {'family': fmt, 'sizes': [2, 1], 'format': fmt, 'pretty': True, 'idx': i, 'seed': seed, 'tier': tier,
